@@ -74,9 +74,6 @@ func (r *scriptedReader) Read(p []byte) (int, error) {
 	}
 	it := r.sched[r.si]
 	r.sn++
-	if it.ign {
-		return 0, errIgn
-	}
 	n := it.k
 	if n > len(p) {
 		n = len(p)
@@ -86,6 +83,9 @@ func (r *scriptedReader) Read(p []byte) (int, error) {
 	}
 	copy(p, r.data[r.pos:r.pos+n])
 	r.pos += n
+	if it.ign {
+		return n, errIgn // io.Reader permits n > 0 together with an error; k = 0 is the plain failing read ("k!" in the schedule)
+	}
 	return n, nil
 }
 
@@ -314,6 +314,22 @@ func genWellFormed(r *rand.Rand, idx int, long bool) *streamCase {
 			}
 		}
 	}()
+	if idx%7 == 3 { // data arriving together with an ignorable error (UDP-style ignoreError), always followed by a successful read
+		c.kind = "wf-ign-data"
+		c.stream, c.blocks = genBlocks(r, 300+r.Intn(20000), 400, 20)
+		sum := 0
+		for sum < len(c.stream) {
+			k := 1 + r.Intn(700)
+			if r.Intn(3) == 0 {
+				c.sched = append(c.sched, schedItem{ign: true, k: k, n: 1}, schedItem{k: r.Intn(50), n: 1})
+			} else {
+				c.sched = append(c.sched, schedItem{k: k, n: 1})
+			}
+			sum += k
+		}
+		c.sched = append(c.sched, schedItem{k: 1 << 20, n: 2})
+		return c
+	}
 	if idx%5 == 4 { // mostly empty-valued blocks, one byte per read, the observation stops at an arbitrary point (pause)
 		c.kind = "wf-tiny-pause"
 		n := 20 + r.Intn(200)
@@ -457,7 +473,11 @@ func schedString(s []schedItem) string {
 		switch {
 		case it.ign:
 			for i := 0; i < it.n; i++ {
-				parts = append(parts, "!")
+				if it.k > 0 {
+					parts = append(parts, strconv.Itoa(it.k)+"!")
+				} else {
+					parts = append(parts, "!")
+				}
 			}
 		case it.n == 1:
 			parts = append(parts, strconv.Itoa(it.k))
@@ -477,8 +497,9 @@ func parseSched(s string) []schedItem {
 		if f == "-" {
 			continue
 		}
-		if f == "!" {
-			res = append(res, schedItem{ign: true, n: 1})
+		if strings.HasSuffix(f, "!") {
+			k, _ := strconv.Atoi(strings.TrimSuffix(f, "!"))
+			res = append(res, schedItem{ign: true, k: k, n: 1})
 			continue
 		}
 		k, n := f, "1"
